@@ -15,7 +15,9 @@ package main
 import (
 	"bufio"
 	"bytes"
+	"compress/zlib"
 	"crypto/sha256"
+	"encoding/ascii85"
 	"encoding/hex"
 	"errors"
 	"fmt"
@@ -877,7 +879,8 @@ func genStreams(e *common.Env, g *gen) {
 						}
 					default:
 						// small value in the low bytes
-						v := uint64([]int{0, 1, 7, 300, 65535, 65536, 1 << 24, 70000}[r.IntN(8)])
+						// type 1: field 2 is a byte offset and may be far beyond the object-number bound
+						v := []uint64{0, 1, 7, 300, 65535, 65536, 1 << 24, 70000, 1<<24 - 1, 1<<24 + 5, 1 << 31, 1<<32 + 9, 1 << 40}[r.IntN(13)]
 						for j := len(field) - 1; j >= 0 && v > 0; j-- {
 							field[j] = byte(v)
 							v >>= 8
@@ -1130,7 +1133,9 @@ func runMode(shardFile string, shard, nshards int) {
 
 	if shard == 0 {
 		runCycles(e)
+		runBigOffsets(e)
 	}
+	runFilterChains(e, shard, nshards)
 	runExtent(e, gdir, shard, nshards)
 
 	e.Finish("a history case is non-trivial when it has at least two revisions (a /Prev chain is followed), distinct by rendered file; a decoder case when it decodes without error; a /Length case when the hypotheses of the clause hold (body without trailing EOL and without EOL+endstream; declared length absent, negative, unresolvable, right, or wrong and not in front of white space + endstream)",
@@ -1329,6 +1334,293 @@ func runCycles(e *common.Env) {
 		}
 		e.Line("impl.obs", "%s %s", c.id, obs)
 		e.Count(true, string(c.file), "prev-cycle")
+	}
+}
+
+// ---------------------------------------------------------------- large offsets
+
+// runBigOffsets: one file with ~17 MB of padding (a comment) between two revisions, so that
+// the in-use entries of the update lie beyond 2^24; the cross-reference stream needs /W [1 4 1].
+// Oracle only (the renderer cannot write files of this size).
+func runBigOffsets(e *common.Env) {
+	var b bytes.Buffer
+	b.WriteString("%PDF-1.5\n")
+	off := map[int]int{}
+	obj := func(k int, body string) { off[k] = b.Len(); fmt.Fprintf(&b, "%d 0 obj\n%s\nendobj\n", k, body) }
+	obj(1, "(old one)")
+	obj(2, "<</Type/Catalog/Pages 3 0 R>>")
+	obj(3, "<</Type/Pages/Kids[]/Count 0>>")
+	x1 := b.Len()
+	row := func(w int, tp, a, c int) []byte {
+		r := []byte{byte(tp)}
+		for i := w - 1; i >= 0; i-- {
+			r = append(r, byte(a>>(8*i)))
+		}
+		return append(r, byte(c))
+	}
+	var d1 []byte
+	d1 = append(d1, row(2, 0, 0, 255)...)
+	for k := 1; k <= 3; k++ {
+		d1 = append(d1, row(2, 1, off[k], 0)...)
+	}
+	d1 = append(d1, row(2, 1, x1, 0)...)
+	fmt.Fprintf(&b, "4 0 obj\n<</Type/XRef/Size 5/W[1 2 1]/Root 2 0 R/Length %d>>\nstream\n", len(d1))
+	b.Write(d1)
+	fmt.Fprintf(&b, "\nendstream\nendobj\nstartxref\n%d\n%%%%EOF\n", x1)
+	// padding: comment lines
+	line := append(append([]byte("%"), bytes.Repeat([]byte("x"), 998)...), '\n')
+	for b.Len() < 1<<24+5000 {
+		b.Write(line)
+	}
+	obj(1, "(new one)")
+	obj(5, "(five)")
+	x2 := b.Len()
+	var d2 []byte
+	d2 = append(d2, row(4, 1, off[1], 0)...)
+	d2 = append(d2, row(4, 1, off[5], 0)...)
+	d2 = append(d2, row(4, 1, x2, 0)...)
+	fmt.Fprintf(&b, "6 0 obj\n<</Type/XRef/Size 7/W[1 4 1]/Index[1 1 5 2]/Root 2 0 R/Prev %d/Length %d>>\nstream\n", x1, len(d2))
+	b.Write(d2)
+	fmt.Fprintf(&b, "\nendstream\nendobj\nstartxref\n%d\n%%%%EOF\n", x2)
+	data := b.Bytes()
+	want := "S" + common.Hex([]byte("new one")) + ";S" + common.Hex([]byte("five")) + ";null"
+	got := func() (obs string) {
+		defer func() {
+			if r := recover(); r != nil {
+				obs = fmt.Sprintf("panic:%v", r)
+			}
+		}()
+		r, err := pdf.NewReader(bytes.NewReader(data), int64(len(data)), nil)
+		if err != nil {
+			return "open-" + errClass(err)
+		}
+		var parts []string
+		for _, ref := range []pdf.Reference{pdf.NewReference(1, 0), pdf.NewReference(5, 0), pdf.NewReference(7, 0)} {
+			o, err := r.Get(ref, true)
+			switch {
+			case err != nil:
+				parts = append(parts, "err")
+			case o == nil:
+				parts = append(parts, "null")
+			default:
+				parts = append(parts, canonObj(o))
+			}
+		}
+		return strings.Join(parts, ";")
+	}()
+	if got != want {
+		failCapped(e, "in-use-entry-beyond-2^24-lost", "objects at byte offsets beyond 2^24 (xref stream, /W [1 4 1]) are not read as the newest revision says",
+			map[string]any{"file_bytes": len(data), "offset_of_object_1": off[1], "reader": got, "reference": want})
+	}
+	e.Count(true, "big-offsets", "big-offsets (17 MB)")
+}
+
+// ---------------------------------------------------------------- filter chains
+
+func pngUp(data []byte, cols int) []byte {
+	var out []byte
+	prev := make([]byte, cols)
+	for i := 0; i < len(data); i += cols {
+		row := make([]byte, cols)
+		copy(row, data[i:min(i+cols, len(data))])
+		out = append(out, 2)
+		for j := range row {
+			out = append(out, row[j]-prev[j])
+		}
+		prev = row
+	}
+	return out
+}
+
+func runLengthEnc(data []byte) []byte {
+	var out []byte
+	for i := 0; i < len(data); {
+		// a run of equal bytes or a literal block
+		j := i
+		for j < len(data) && j-i < 128 && data[j] == data[i] {
+			j++
+		}
+		if j-i >= 3 {
+			out = append(out, byte(257-(j-i)), data[i])
+			i = j
+			continue
+		}
+		j = i
+		for j < len(data) && j-i < 128 && !(j+2 < len(data) && data[j] == data[j+1] && data[j] == data[j+2]) {
+			j++
+		}
+		if j == i {
+			j = i + 1
+		}
+		out = append(out, byte(j-i-1))
+		out = append(out, data[i:j]...)
+		i = j
+	}
+	return append(out, 128)
+}
+
+type stage struct {
+	name string
+	cols int // > 0: Flate with /Predictor 12 /Columns cols
+}
+
+// encodeChain applies the stages so that decoding with /Filter [s1 ... sk] gives data back
+func encodeChain(data []byte, st []stage) []byte {
+	x := data
+	for i := len(st) - 1; i >= 0; i-- {
+		switch st[i].name {
+		case "FlateDecode":
+			if st[i].cols > 0 {
+				x = pngUp(x, st[i].cols)
+			}
+			var z bytes.Buffer
+			zw := zlib.NewWriter(&z)
+			zw.Write(x)
+			zw.Close()
+			x = z.Bytes()
+		case "ASCIIHexDecode":
+			x = append([]byte(strings.ToUpper(hex.EncodeToString(x))), '>')
+		case "ASCII85Decode":
+			var z bytes.Buffer
+			w := ascii85.NewEncoder(&z)
+			w.Write(x)
+			w.Close()
+			x = append(z.Bytes(), '~', '>')
+		case "RunLengthDecode":
+			x = runLengthEnc(x)
+		}
+	}
+	return x
+}
+
+// chainDict writes /Filter and /DecodeParms for the stages; nulls mode: how stages without
+// parameters are written in the /DecodeParms array
+func chainDict(st []stage, r interface{ IntN(int) int }) string {
+	if len(st) == 1 && r.IntN(2) == 0 {
+		s := "/Filter/" + st[0].name
+		if st[0].cols > 0 {
+			s += fmt.Sprintf("/DecodeParms<</Predictor 12/Columns %d>>", st[0].cols)
+		}
+		return s
+	}
+	var names, parms []string
+	any := false
+	for _, x := range st {
+		names = append(names, "/"+x.name)
+		if x.cols > 0 {
+			parms = append(parms, fmt.Sprintf("<</Predictor 12/Columns %d>>", x.cols))
+			any = true
+		} else if r.IntN(4) == 0 {
+			parms = append(parms, "<<>>")
+		} else {
+			parms = append(parms, "null")
+		}
+	}
+	s := "/Filter[" + strings.Join(names, " ") + "]"
+	if any || r.IntN(2) == 0 {
+		s += "/DecodeParms[" + strings.Join(parms, " ") + "]"
+	}
+	return s
+}
+
+// runFilterChains: cross-reference streams and object streams encoded with chains of 1-3
+// filters, /DecodeParms arrays with null in every position and parameters on any stage.
+// Files are written here (the Coq renderer writes unfiltered streams); oracle only.
+func runFilterChains(e *common.Env, shard, nshards int) {
+	r := e.Rand
+	names := []string{"FlateDecode", "ASCIIHexDecode", "ASCII85Decode", "RunLengthDecode"}
+	n := e.Pick(240, 6000)
+	for it := 0; it < n; it++ {
+		mk := func(finalCols int) []stage {
+			k := 1 + r.IntN(3)
+			st := make([]stage, k)
+			for i := range st {
+				st[i].name = names[r.IntN(len(names))]
+				if it%3 == 0 {
+					st[i].name = "FlateDecode" // the chains of Flate stages are where parameters matter
+				}
+				if st[i].name == "FlateDecode" && r.IntN(2) == 0 {
+					st[i].cols = 1
+					if i == k-1 && r.IntN(2) == 0 {
+						st[i].cols = finalCols
+					}
+				}
+			}
+			return st
+		}
+		if it%nshards != shard {
+			// keep the random stream aligned between shards: draw the same numbers
+			mk(1)
+			mk(1)
+			chainDict(nil, r)
+			continue
+		}
+		var b bytes.Buffer
+		b.WriteString("%PDF-1.5\n")
+		off := map[int]int{}
+		obj := func(k int, body string) { off[k] = b.Len(); fmt.Fprintf(&b, "%d 0 obj\n%s\nendobj\n", k, body) }
+		obj(1, "<</Type/Catalog/Pages 2 0 R>>")
+		obj(2, "<</Type/Pages/Kids[]/Count 0>>")
+		// object stream 3 with objects 4 and 5
+		o4, o5 := "(hidden text 4)", "12345"
+		hdr := fmt.Sprintf("4 0 5 %d ", len(o4)+1)
+		body := []byte(hdr + o4 + " " + o5 + " ")
+		for len(body)%4 != 0 {
+			body = append(body, ' ')
+		}
+		st3 := mk(4)
+		enc3 := encodeChain(body, st3)
+		off[3] = b.Len()
+		fmt.Fprintf(&b, "3 0 obj\n<</Type/ObjStm/N 2/First %d%s/Length %d>>\nstream\n", len(hdr), chainDict(st3, r), len(enc3))
+		b.Write(enc3)
+		b.WriteString("\nendstream\nendobj\n")
+		// xref stream 6: rows of 4 bytes
+		x := b.Len()
+		row := func(tp, a, c int) []byte { return []byte{byte(tp), byte(a >> 8), byte(a), byte(c)} }
+		var rows []byte
+		rows = append(rows, row(0, 0, 255)...)
+		rows = append(rows, row(1, off[1], 0)...)
+		rows = append(rows, row(1, off[2], 0)...)
+		rows = append(rows, row(1, off[3], 0)...)
+		rows = append(rows, row(2, 3, 0)...)
+		rows = append(rows, row(2, 3, 1)...)
+		rows = append(rows, row(1, x, 0)...)
+		st6 := mk(4)
+		enc6 := encodeChain(rows, st6)
+		fmt.Fprintf(&b, "6 0 obj\n<</Type/XRef/Size 7/W[1 2 1]/Root 1 0 R%s/Length %d>>\nstream\n", chainDict(st6, r), len(enc6))
+		b.Write(enc6)
+		fmt.Fprintf(&b, "\nendstream\nendobj\nstartxref\n%d\n%%%%EOF\n", x)
+		data := b.Bytes()
+		want := "S" + common.Hex([]byte("hidden text 4")) + ";i12345"
+		got := func() (obs string) {
+			defer func() {
+				if rr := recover(); rr != nil {
+					obs = fmt.Sprintf("panic:%v", rr)
+				}
+			}()
+			rd, err := pdf.NewReader(bytes.NewReader(data), int64(len(data)), nil)
+			if err != nil {
+				return "open-" + errClass(err)
+			}
+			var parts []string
+			for _, k := range []uint32{4, 5} {
+				o, err := rd.Get(pdf.NewReference(k, 0), true)
+				switch {
+				case err != nil:
+					parts = append(parts, "err")
+				case o == nil:
+					parts = append(parts, "null")
+				default:
+					parts = append(parts, canonObj(o))
+				}
+			}
+			return strings.Join(parts, ";")
+		}()
+		if got != want {
+			failCapped(e, "filtered-xref-or-object-stream-not-read", "a cross-reference stream / object stream encoded with a filter chain is not read back",
+				map[string]any{"file": string(data), "objstm_chain": fmt.Sprint(st3), "xref_chain": fmt.Sprint(st6), "reader": got, "reference": want})
+		}
+		e.Count(len(st3) > 1 || len(st6) > 1, string(data), fmt.Sprintf("filter-chain stages=%d/%d", len(st3), len(st6)))
 	}
 }
 
